@@ -43,6 +43,8 @@ class FuncUnit:
                                     configure=getattr(self, "configure", None))
         for o in obs:
             o.kind = "func"
+            if o.clause in getattr(self, "shape_only_clauses", ()):
+                o.shape_only = True      # a violation only if the behavioural replay on the real code confirms it
         bd = getattr(self, "bounded_desc", None)
         if bd:
             # loops of this function are unrolled for fixed small sizes: a bounded stand-in, not a proof
